@@ -25,7 +25,7 @@ ASSUMPTIONS = [
     "msdparser tokenizes '#KEY:value;' texts without the excluded metacharacters correctly",
 ]
 MONITORS = ["tick_text", "construct", "inexact", "arith", "history", "beatvalues", "timing_string", "timingdata"]
-REQUIRED = ["arith_mixed_int", "arith_mixed_fraction", "inexact_half_tick_boundary", "timing_string_linebreaks"]
+REQUIRED = ["two_events_on_one_beat", "arith_mixed_int", "arith_mixed_fraction", "inexact_half_tick_boundary", "timing_string_linebreaks"]
 
 TICK_LIMIT = 96000
 
@@ -129,7 +129,7 @@ def cases(ctx):
             k = rng.randint(-200, 2000)
             for _ in range(m):
                 evs.append([k, rdec_str(rng)])
-                k += rng.randint(1, 4000)
+                k += rng.choice([0, 1, rng.randint(1, 4000)]) if rng.random() < 0.3 else rng.randint(1, 4000)
             yield {"kind": "beatvalues", "events": evs}
         else:
             m = rng.choice([0, 1, 3, 8])
@@ -137,7 +137,7 @@ def cases(ctx):
             k = 0
             for _ in range(m):
                 evs.append([k, rdec_str(rng, signed=False)])
-                k += rng.randint(1, 2000)
+                k += 0 if rng.random() < 0.15 else rng.randint(1, 2000)
             rows = [rng.choice(WS) + _beat3(e[0]) + "=" + e[1] + rng.choice(WS) for e in evs]
             text = ",".join(rows) if rows else rng.choice(["", " ", "\n", "\r\n \t"])
             yield {
@@ -267,6 +267,8 @@ def check(ctx, case):
             ctx.expect(ok, "history:" + form, value=str(exact), forms=case["forms"], got=repr(b), frac=str(fb))
         return
 
+    if kind in ("beatvalues", "timing_string", "timingdata") and len({e[0] for e in case["events"]}) < len(case["events"]):
+        ctx.feat("two_events_on_one_beat")
     if kind == "beatvalues":
         evs = case["events"]
         ctx.begin(case, nontrivial=bool(evs))
